@@ -118,7 +118,6 @@ def run_batch(cases: list[Case], timeout: float | None = None, steps="reach", en
                     "reach": c.reach,
                     "step_budget": c.step_budget,
                     "collect": c.collect,
-                    "meta": c.meta,
                 },
             )
         job = os.path.join(ws.root, "job.json")
